@@ -435,8 +435,15 @@ mod verif {
         kani::assume(i < DISK_SIZE);
         let before_i = logical(&w, &old_disk, i);
         let wo = w.write_offset;
+        unsafe { env::PUB_PTR = std::sync::Arc::as_ptr(&w.flushed_offset.0); env::PUB_AT_LAST_WRITE = old_fl; env::PUB_AT_LAST_SYNC = old_fl; }
+        let buffered_before = w.writer.buffered();
         let r = ok(w.sync());
+        unsafe { env::PUB_PTR = std::ptr::null(); }
         assert!(r == wo && w.write_offset == wo, "sync returns the write offset");
+        if was_dirty {
+            assert!(unsafe { env::PUB_AT_LAST_SYNC } == old_fl, "nothing new is published before sync_data has returned (ack only after fsync)");
+            if buffered_before > 0 { assert!(unsafe { env::PUB_AT_LAST_WRITE } == old_fl, "nothing new is published before the buffered bytes reached the file"); }
+        }
         assert!(wf(&w) && !w.dirty && w.writer.buffered() == 0 && w.flushed_offset.load() == wo, "after sync everything written is on disk and published");
         assert!(unsafe { DISK[i] } == before_i, "sync writes exactly the buffered bytes at the cursor");
         if was_dirty || old_fl != wo { assert!(unsafe { env::SYNCS } >= 1, "the flushed offset is only advanced after sync_data"); }
